@@ -80,6 +80,11 @@ type Features struct {
 	// NoNestedSign: no "- - a". QuotedOddNames: quoted column names that start with a digit or contain
 	// '*' ("1abc", "a*b"); QuotedDotName / QuotedDigitsName: "a.b" / "12" as a column name.
 	NoNestedSign, QuotedOddNames, QuotedDotName, QuotedDigitsName bool
+	// Corners: spellings serialisers tend to get wrong - string values that start with a quote or hold a raw
+	// control character, INTERVAL values with a quote, casts to array types / INTERVAL (:: only), a signed left
+	// operand of a JSON operator, subscripts of parenthesised expressions, NOT over EXISTS (..) = x, quoted
+	// function names, every tokenizer keyword as a quoted column name, TABLESPACE / ON CONSTRAINT / index method
+	Corners bool
 	// Flat: no nested query anywhere and no statement-starting keyword after the
 	// first token (SELECT/INSERT ... VALUES/DELETE only): the sub-grammar C12 quantifies over
 	Flat bool
@@ -96,6 +101,7 @@ func FullFeatures() Features {
 	f.Alter, f.AlterQualified = true, true
 	f.MySQL, f.Partitions = true, true
 	f.QuotedOddNames, f.QuotedDotName, f.QuotedDigitsName = true, true, true
+	f.Corners = true
 	return f
 }
 
@@ -224,6 +230,10 @@ func bare(name string) ident { return ident{name, name} }
 var (
 	colPool   = []ident{bare("a"), bare("b"), bare("c"), bare("id"), bare("amt"), bare("qty"), bare("col_1"), bare("Price"), q("Col X"), q(`q"t`), bare("é1")}
 	colKwPool = []ident{q("select"), q("from"), q("order"), q("group by"), q("left join")}
+	// words the tokenizer or the parser's token conversion type as keywords (beyond the reserved list)
+	colKwPool2 = []ident{q("all"), q("default"), q("delete"), q("distinct"), q("groups"), q("key"), q("last"), q("list"), q("primary"), q("update"), q("unique"), q("into"),
+		q("insert"), q("references"), q("nulls"), q("hash"), q("than"), q("less"), q("maxvalue"), q("tablespace"), q("materialized"), q("recursive"), q("foreign"), q("collate"),
+		q("exclude"), q("ilike"), q("show"), q("describe"), q("tables"), q("databases"), q("autoincrement"), q("AUTO_INCREMENT"), q("Key"), q("GROUPS")}
 	tblPool   = []ident{bare("t1"), bare("t2"), bare("users_1"), bare("ord"), q("My Table"), bare("T3")}
 	schemaP   = []ident{bare("s1"), bare("pub"), q("Sch 1")}
 	aliasPool = []ident{bare("x"), bare("y"), bare("z1"), q("al 1"), bare("w_2")}
@@ -240,6 +250,9 @@ func (g *G) pick(pool []ident, label string) ident {
 func (g *G) column() ident {
 	if g.F.QuotedKeywordID && g.chance(6, "kwcol") {
 		g.use("quoted_keyword_ident")
+		if g.F.Corners && g.chance(50, "kwcol2") {
+			return g.pick(colKwPool2, "kwcolname2")
+		}
 		return g.pick(colKwPool, "kwcolname")
 	}
 	if (g.F.QuotedOddNames || g.F.QuotedDotName || g.F.QuotedDigitsName) && g.chance(5, "oddcol") {
